@@ -20,7 +20,8 @@ meta = {"seed": sid, "property": pid, "needs": needs, "repo_head": subprocess.ru
 try:
     env = dict(os.environ, PYTHONPATH=sc)
     def rundemo():
-        p = subprocess.run(["/venv/bin/python", os.path.join(dst, demo)], cwd=sc, env=env, capture_output=True, text=True, timeout=600)
+        shutil.copy(os.path.join(dst, demo), os.path.join(sc, demo))      # demos are written to run from the tree's root
+        p = subprocess.run(["/venv/bin/python", os.path.join(sc, demo)], cwd=sc, env=env, capture_output=True, text=True, timeout=600)
         return p.returncode, (p.stdout + p.stderr)[-400:]
     meta["demo_without_patch"] = rundemo()
     a = subprocess.run(["git", "-C", sc, "apply", os.path.join(dst, "patch.diff")], capture_output=True, text=True)
